@@ -43,7 +43,12 @@ def from_notes(src):
     head = next((l.strip("# ").strip() for l in txt.splitlines() if l.strip()), "")
     head = re.sub(r"^(C\d\d\s*/\s*)?[Cc]hange [A-D]\s*[-:–—]*\s*", "", head)
     m = re.search(r"[Nn]eeds to manifest\W*(.{10,400}?)(?:\n\s*[-*]|\n\n|$)", txt, re.S)
-    return head[:300], (re.sub(r"\s+", " ", m.group(1)).strip()[:300] if m else "")
+    if not m:  # any sentence of the notes that speaks of manifesting / showing
+        m = re.search(r"(?im)^[^\n]*\b(manifests?|shows? only|only shows?|needs)\b[^\n]*$", txt)
+        needs = re.sub(r"[*`#>-]+", " ", m.group(0)).strip() if m else ""
+    else:
+        needs = m.group(1)
+    return head[:300], re.sub(r"\s+", " ", needs).strip()[:300]
 
 
 for sid, (a, b, suite, srcdir) in sorted(rows.items()):
